@@ -170,13 +170,21 @@ impl<S: BuildHasher + Clone + 'static> ExpirationMap<S> {
         let (old_bucket_num, new_bucket_num) =
             (storage_bucket(old_exp_time), storage_bucket(new_exp_time));
 
-        if old_bucket_num == new_bucket_num {
+        if !old_exp_time.is_zero() && !new_exp_time.is_zero() && old_bucket_num == new_bucket_num {
             return Ok(());
         }
 
         let mut m = self.buckets.write();
 
-        m.remove(&old_bucket_num);
+        if !old_exp_time.is_zero() {
+            if let Some(bucket) = m.get_mut(&old_bucket_num) {
+                bucket.remove(&key);
+            }
+        }
+
+        if new_exp_time.is_zero() {
+            return Ok(());
+        }
 
         match m.get_mut(&new_bucket_num) {
             None => {
